@@ -192,8 +192,14 @@ def one_trace(rng, case, bname, parameter=True, observed=False, via_copy=False, 
                             "observed": bool(x.observed)}}
         return {"hdr": hdr, "ev": ev + [e]}
     if model is None:
-        extra = [bvar.transform(tfb.Exp())] if transform_bij_arg else []
-        model = gb.add(xx, tv, bvar, *extra).build_model()
+        try:
+            extra = [bvar.transform(tfb.Exp())] if transform_bij_arg else []
+            model = gb.add(xx, tv, bvar, *extra).build_model()
+        except Exception as ex:  # noqa: BLE001  (the variables of an accepted transformation form one buildable graph)
+            e.update({"ok": False, "reason": "build:" + type(ex).__name__ + ":" + str(ex)[:120], "names": ["x", "x_transformed"],
+                      "flags": {n: {"weak": bool(v.weak), "has_dist": bool(v.has_dist), "parameter": bool(v.parameter),
+                                    "observed": bool(v.observed)} for n, v in (("x", xx), ("x_transformed", tv))}})
+            return {"hdr": hdr, "ev": ev + [e]}
     copy_ok = True
     if via_copy:
         import copy
